@@ -85,6 +85,20 @@ func H_QueueScript() {
 	keys := []string{verif.Atom("keyA"), verif.Atom("keyB")}
 	verif.Assume(keys[0] != keys[1])
 	m := &model{}
+	if verif.Choose("startWithHeldItem", 2) == 1 {
+		// pre-state: keyA was notified and is being processed by a worker
+		v0 := verif.Int("value0")
+		q.Put(keys[0], v0)
+		verif.Quiesce()
+		it := <-q.Get()
+		k, v := it.Get()
+		verif.Assert(k == keys[0] && v == v0, "the only notified item is delivered with its value")
+		m.held = append(m.held, heldItem{it, k, v})
+		if verif.Tier() == "thorough" {
+			nActions--
+		}
+		verif.Cover("started with a held item")
+	}
 	for a := 0; a < nActions; a++ {
 		verif.Quiesce()
 		now := time.Now()
